@@ -112,8 +112,8 @@ CLAIMED = {
  "C05": dict(
   text="Stream-info parsers modelled in Lean with specification-side builders (Model/Info, Spec/Info, Props/C05_<Fmt>.lean): for ALL values of the header fields the "
        "specification allows, parsing the built header yields exactly the encoded values - wavpack_info_decodes_partial, ape_info_decodes_partial, "
-       "apeold_info_decodes_partial, ofr_info_decodes (+ ofr_encoder_string for all 65536 ids), tta_info_decodes, tak_bitreader_fields, tak_info_decodes; the "
-       "hypotheses of the _partial ones exclude exactly the open findings, which are decide-witnesses in the same files; tied by harness/info_tie_a.py. "
+       "apeold_info_decodes_partial, ofr_info_decodes (+ ofr_encoder_string for all 65536 ids), tta_info_decodes, tak_bitreader_fields, tak_info_decodes, mpc_sv7_info_decodes_partial, mpc_sv8_info_decodes, aac_adts_info_decodes_partial, ac3_values_decode, eac3_values_decode, wave_info_reports, wave_info_decodes_partial, aiff_info_decodes_partial (80-bit extended rate modelled exactly), dsf_info_decodes_partial, dsdiff_info_decodes, oggvorbis_/oggopus_/oggspeex_/oggflac_info_decodes, oggtheora_info_decodes_partial, asf_info_decodes, mp4_info_decodes (atom walk, stsd, esds, alac, dac3); every format with <fmt>_info_total (all byte strings end in ok or MutagenError); the "
+       "hypotheses of the _partial ones exclude exactly the open findings, which are decide-witnesses in the same files; tied by harness/info_tie_a.py and info_tie_b.py (about 50 k traces per quick run). "
        "Lean 4 theorems (Props/C05.lean): mutagen's MPEG bitrate/sample-rate tables and the WavPack/Musepack/AAC/AC-3 rate tables (regenerated from "
        "source) equal the published tables; mpeg_header_decodes - for EVERY 32-bit MPEG audio header (all field combinations incl. reserved bits) "
        "the model decoder yields the ISO version/layer/bitrate/rate/channels/padding and the ISO frame length, and rejects exactly the ISO-invalid "
@@ -150,7 +150,7 @@ CLAIMED = {
   technique='Lean 4 proof (arithmetic of the generated policy; FLAC layout-level save) + padding measurement on real files',
   ref='DESIGN.md §5 C09'),
  "C19": dict(
-  text="Lean 4 theorems (Props/C19.lean) in environments with an arbitrary device capacity and an arbitrary leak of the failing write: "
+  text="Container models as programs over the file object (Props/C19_<X>.lean, DESIGN.md 9.14): asf_/mp4_/iff_/id3_save_enlarge_first - for EVERY capacity and leak the save completes with the pure result or raises MutagenError with the file byte-identical (ASF and MP4 for every file content); the exact partial states where the code does not enlarge first: iff_save_new_chunk_payload_intact (+ iff_partial_state_wellformed), dsf_save_enlarge_first / dsf_save_enospc_payload_intact, ogg_save_one_page_atomic / ogg_save_enlarge_first (slot by slot), id3_save_enlarge_first (ID3v1 block appended after the tag), ape_save_payload_intact; <x>_saveM_refines ties each program to the pure model; *_delete_never_enospc. Lean 4 theorems (Props/C19.lean) in environments with an arbitrary device capacity and an arbitrary leak of the failing write: "
        "resize_rollback - growing the file either succeeds or raises ENOSPC with the file byte-identical (whichever byte of the enlargement the "
        "device fills up at, every buffer size); insert_bytes_atomic and resize_bytes_atomic - the primitives under every saver complete or leave "
        "the file untouched (growth precedes the move; moves and shrinks only write inside the file and never hit the limit); flac_save_enlarge_first "
@@ -164,7 +164,7 @@ CLAIMED = {
   technique="Lean 4 proof (FileM programs under a capacity environment; rollback and enlarge-first theorems) + capacity sweep on the real savers",
   ref="DESIGN.md §5 C19"),
  "C06": dict(
-  text="Lean 4 theorems (Props/C06.lean) over FileM programs in ARBITRARY fault environments (any exception at any file-object call, short reads, "
+  text="Container models as programs over the file object (Model/Container/<X>M.lean; the ties compare the complete call log with the real code on fobj.FaultFile): asf_/iff_/dsf_/ogg_/mp4_/id3_/ape_save_raises_only, _save_io_faults, _save_ok_means_written and the same for delete (Props/C06_<X>.lean) - with arbitrary injected faults only MutagenError or the documented ValueError leaves the entry point, and a normal return without short reads leaves the complete new state. Lean 4 theorems (Props/C06.lean) over FileM programs in ARBITRARY fault environments (any exception at any file-object call, short reads, "
        "finite capacity): primitives_raise_only - resize_file/move_bytes/insert_bytes/delete_bytes/resize_bytes/read_full/get_size raise nothing but "
        "the injected exception, ENOSPC, ValueError (argument check) or IOError (read_full) by a compositional Raises judgement (one rule per "
        "construct incl. try/except, try/finally, convert_error); primitives_ok_means_no_fault - a normal return means no injected fault fired "
